@@ -474,7 +474,27 @@ func c10Copy(r *Rand, L, eff int) *Case {
 	}
 	// the oversized message inside COPY mode: CopyData, CopyFail or a foreign message
 	ot := byte(r.Pick("d", "d", "f", "Q", "P", "S")[0])
-	msgs = append(msgs, pgwire.FMsg{K: "typed", T: ot, Pad: int64(eff) + int64(r.PickInt(1, eff, 2*eff+1)), PadPat: injectedPattern()})
+	over := pgwire.FMsg{K: "typed", T: ot, Pad: int64(eff) + int64(r.PickInt(1, eff, 2*eff+1)), PadPat: injectedPattern()}
+	switch r.Intn(8) {
+	case 0:
+		// the peer goes away inside the oversized body: the stream has not ended
+		// with CopyDone, so the handler is never told that it has
+		c.Variant = "copy-truncated"
+		over.DeclLen = u32p(uint32(over.Pad + 4))
+		over.Pad = int64(r.PickInt(0, 1, 10, eff/2, eff))
+		msgs = append(msgs, over)
+		c.Conns = []ConnCase{{Steps: []Step{{Msgs: []pgwire.FMsg{{K: "startup", KV: [][2]string{{"user", "u"}}}}}, {Msgs: msgs}}, Cuts: genCuts(r)}}
+		return c
+	case 1:
+		// the session's context (derived by a middleware) ends while the handler
+		// is reading the stream, and the next message is oversized: whatever
+		// becomes of the COPY, the body is skipped, never parsed
+		c.Variant = "copy-cancelled"
+		c.Server.MW = []MWSpec{{Cancel: true}}
+		c.Programs["cp"] = &Program{Stmts: []*StmtProg{{Cols: []ColSpec{{Name: "a", OID: pgwire.OIDText}}, Ops: []Op{{K: "copyin"}, {K: "copyread", N: 1}, {K: "cancel"}, {K: "copyall"}, {K: "retlast"}}}}}
+		msgs = []pgwire.FMsg{{K: "Q", S1: "cp"}, {K: "d", Data: []byte("first-chunk")}}
+	}
+	msgs = append(msgs, over)
 	msgs = append(msgs, pgwire.FMsg{K: "c"}, pgwire.FMsg{K: "Q", S1: probeKey})
 	c.Conns = []ConnCase{{Steps: []Step{{Msgs: []pgwire.FMsg{{K: "startup", KV: [][2]string{{"user", "u"}}}}}, {Msgs: msgs}}, Cuts: genCuts(r)}}
 	return c
@@ -602,6 +622,17 @@ func checkC10(x *Exec, c *Case) ([]Violation, bool) {
 			if ok, _, detail := afterTimeoutVerdict(rr.Conns[i], cs); !ok {
 				add("diverges-after-read-timeout", "diverges-after-read-timeout", fmt.Sprintf("conn %d: one read reported a timeout (no byte lost): %s", i, detail))
 			}
+		case "copy-truncated":
+			nt = true
+			// the stream never ended: no end-of-stream for the handler, no
+			// successful completion of the COPY
+			for _, e := range cs.Events {
+				if e.K == "op" && strings.HasSuffix(e.S, "copyread eof") {
+					add("copy-truncated-reported-as-complete", "copy truncated eof", fmt.Sprintf("conn %d: the peer went away inside an oversized message of a COPY stream and the handler was told the stream had ended (CopyDone was never sent): %q", i, kinds))
+				}
+			}
+		case "copy-cancelled":
+			nt = true // (judged by the rules above: grammar, no byte of the skipped body reaches a callback)
 		case "copy":
 			nt = true
 			ne := 0
@@ -637,7 +668,7 @@ func checkC10(x *Exec, c *Case) ([]Violation, bool) {
 func init() {
 	register(&Prop{
 		ID: "C10", Level: "exploration", QuickS: 25, ThoroughS: 420,
-		Rule:       "enumerated boundary grid (limits {5,16,64,100,1000,4095,4096,4097,65536} x message types {Q,P,B,D,E,C,H,S,X,d,c,f,unknown} x declared body {L-1,L,L+1} x position {first, after a simple cycle, inside a pipelined extended batch, while discarding after a failed extended message}; startup packets and password messages of body {L-1,L,L+1,2L}; declared lengths 0-3 for five message types and the startup packet) plus seeded cases (the same dimensions with bodies 2L, 2L+1, 64 MiB, 2^31-5, 2^32-5, fully supplied by a synthetic pattern that spells valid protocol messages or cut short, default limit for a small share, arbitrary segmentation of the skipped body, oversized CopyData / CopyFail / foreign messages inside COPY mode); judged by the size-rule model (the ReadyForQuery after the 54000 error is optional here), 'no callback sees a byte of a skipped body', a per-step allocation bound of 4L+16MiB measured from runtime/metrics, and recovery of the following message; oversized messages delivered in two flights (header and part of the body first: nothing is answered before the message has been skipped in full); one read of the exchange reports a transient timeout (no byte lost): compared with the undisturbed run - identical if the server carries on, a prefix if it gives the connection up; headers declaring a length below 4 followed by an oversized message and a probe (either the connection is given up there, or everything behind is handled as if the headers had never been sent); a third of the seeded cases put legal traffic in front of the sized message that leaves the read window in another state (one legal message of 4096 / 4097 / 5000 / L-1 / L bytes, parsed or - a stray CopyData, a large chunk inside COPY - never consumed; runs of small queries whose bodies add up to totals around 4096 and 8192); non-trivial = the case contains a message at or beyond the boundary; distinct = distinct case content hashes",
+		Rule:       "enumerated boundary grid (limits {5,16,64,100,1000,4095,4096,4097,65536} x message types {Q,P,B,D,E,C,H,S,X,d,c,f,unknown} x declared body {L-1,L,L+1} x position {first, after a simple cycle, inside a pipelined extended batch, while discarding after a failed extended message}; startup packets and password messages of body {L-1,L,L+1,2L}; declared lengths 0-3 for five message types and the startup packet) plus seeded cases (the same dimensions with bodies 2L, 2L+1, 64 MiB, 2^31-5, 2^32-5, fully supplied by a synthetic pattern that spells valid protocol messages or cut short, default limit for a small share, arbitrary segmentation of the skipped body, oversized CopyData / CopyFail / foreign messages inside COPY mode); judged by the size-rule model (the ReadyForQuery after the 54000 error is optional here), 'no callback sees a byte of a skipped body', a per-step allocation bound of 4L+16MiB measured from runtime/metrics, and recovery of the following message; oversized messages delivered in two flights (header and part of the body first: nothing is answered before the message has been skipped in full); one read of the exchange reports a transient timeout (no byte lost): compared with the undisturbed run - identical if the server carries on, a prefix if it gives the connection up; inside COPY also: the peer going away inside the oversized body (the handler is never told the stream ended) and the session context ending right before the oversized message (its body is still skipped, never parsed); headers declaring a length below 4 followed by an oversized message and a probe (either the connection is given up there, or everything behind is handled as if the headers had never been sent); a third of the seeded cases put legal traffic in front of the sized message that leaves the read window in another state (one legal message of 4096 / 4097 / 5000 / L-1 / L bytes, parsed or - a stray CopyData, a large chunk inside COPY - never consumed; runs of small queries whose bodies add up to totals around 4096 and 8192); non-trivial = the case contains a message at or beyond the boundary; distinct = distinct case content hashes",
 		Exhaustive: "the boundary grid listed in the rule is enumerated completely in both tiers",
 		Components: e1Components, Assumptions: commonAssumptions,
 		Fixed: c10Fixed,
